@@ -5,6 +5,7 @@ import Usid.Driver.Groups
 import Usid.Driver.Attrs
 import Usid.Driver.Dup
 import Usid.Driver.MainCheck
+import Usid.Driver.Anc
 /-! Line-protocol driver over the hand-written models: one JSON request per line on stdin,
     one JSON response per line on stdout. -/
 namespace Usid.Driver
@@ -18,7 +19,8 @@ def handlers : List (String × (Json → R Json)) := [
   ("grp.run", hGrpRun),
   ("attrs.match", hAttrsMatch),
   ("dup.decide", hDupDecide),
-  ("main.check", hMainCheck)
+  ("main.check", hMainCheck),
+  ("anc.build", hAncBuild), ("anc.make", hAncMake), ("anc.write", hAncWrite)
 ]
 
 def respond (tbl : List (String × (Json → R Json))) (line : String) : String :=
